@@ -145,6 +145,10 @@ func body(c *runner.Ctx, faults bool) {
 		g := &gen{c: c, w: w, budget: 14, nb: c.Choose(3, "non-null-field") > 0}
 		root := g.genSet("Query", 0)
 		g.addTwins(root)
+		if c.Choose(3, "directives") == 1 {
+			g.dirs = true
+			g.decorate(root)
+		}
 		ex := &execution{idx: i, root: root}
 		if c.Choose(3, "opname") == 1 {
 			ex.opName = fmt.Sprintf("Op%d", i)
@@ -192,7 +196,7 @@ func body(c *runner.Ctx, faults bool) {
 		ex := ex
 		go func() {
 			defer func() { finished++ }()
-			q, err := graphql.Parse(ex.text, nil)
+			q, err := graphql.Parse(ex.text, dirVars())
 			if err != nil {
 				ex.rejected = err
 				return
